@@ -7,11 +7,15 @@
 #include "vx.h"
 #include "vx_open.h"
 #include <xercesc/internal/IGXMLScanner.hpp>
+#include <xercesc/internal/SGXMLScanner.hpp>
 #include <xercesc/internal/XMLReader.hpp>
 #include <xercesc/framework/XMLAttDef.hpp>
 #include <xercesc/framework/XMLBuffer.hpp>
 #include <xercesc/framework/XMLValidator.hpp>
 #include "vx_close.h"
+#ifndef SCANNER
+#define SCANNER IGXMLScanner      // the DTD+schema scanner; -DSCANNER=SGXMLScanner runs the schema-only scanner copy of the same functions
+#endif
 #define VX_STUB_XMLEXCEPTION
 #define VX_STUB_XMEMORY
 #include "vx_stubs.hpp"
@@ -27,7 +31,7 @@ struct AttDef : XMLAttDef {
 static bool ws(XMLCh c) { return c == 0x20 || c == 0x9 || c == 0xA || c == 0xD; }
 extern "C" void harness_attnorm(void) {
   VxMMFixed<64> mm;
-  static VxRaw<IGXMLScanner> sr; IGXMLScanner* sc = &sr.obj;
+  static VxRaw<SCANNER> sr; SCANNER* sc = &sr.obj;
   static VxRaw<XMLReader> rr; XMLReader* rd = &rr.obj; rd->fgCharCharsTable = XMLChar1_0::fgCharCharsTable1_0;
   sc->fReaderMgr.fCurReader = rd;
   bool standalone = nondet_bool(), validate = nondet_bool();
